@@ -1132,6 +1132,13 @@ class Event(Boolean):
 
 class __compute_length_of_default:
     def __call__(self, p):
+        if p.default is None:
+            # (e.g. a None default inherited from a parent class: the same
+            # rule, and error, as for a declaration without default)
+            raise ValueError(
+                f"{_validate_error_prefix(p, 'length')} must be "
+                "specified if no default is supplied."
+            )
         return len(p.default)
 
     def __repr__(self):
